@@ -16,9 +16,6 @@ func raceDisable() { runtime.RaceDisable() }
 //go:norace
 func raceEnable() { runtime.RaceEnable() }
 
-//go:norace
-func raceRelease(t *thread) { runtime.RaceReleaseMerge(unsafe.Pointer(t)) }
-
 // Acquire / Release report the program's own synchronisation to the race
 // detector.
 //
